@@ -8,6 +8,9 @@ use super::src_kani::KaniSrc;
 use super::target::api_sort_field_name;
 use std::cmp::Ordering;
 
+#[cfg(verif_deep)]
+pub const N: usize = 4;
+#[cfg(not(verif_deep))]
 pub const N: usize = 3;
 
 /// symbolic name: 0..=N bytes over a 3-letter alphabet (prefix structure is what matters)
@@ -83,15 +86,15 @@ pub fn dispatch<S: Src>(name: &str, s: &mut S) -> bool {
 mod proofs {
     use super::*;
     #[kani::proof]
-    #[kani::unwind(6)]
+    #[kani::unwind(7)]
     fn order_antisymmetric() { super::order_antisymmetric(&mut KaniSrc) }
     #[kani::proof]
-    #[kani::unwind(6)]
+    #[kani::unwind(7)]
     fn longer_name_first() { super::longer_name_first(&mut KaniSrc) }
     #[kani::proof]
-    #[kani::unwind(6)]
+    #[kani::unwind(7)]
     fn order_transitive() { super::order_transitive(&mut KaniSrc) }
     #[kani::proof]
-    #[kani::unwind(6)]
+    #[kani::unwind(7)]
     fn canary_order() { super::canary_order(&mut KaniSrc) }
 }
